@@ -67,4 +67,14 @@ Contains(r, q) == OccursCirc(q, r.seq)
 \* Python slice bounds
 NormIdx(i, n) == IF i < 0 THEN (IF n + i < 0 THEN 0 ELSE n + i) ELSE (IF i > n THEN n ELSE i)
 SliceSeq(r, a, b) == LinSlice(r.seq, NormIdx(a, N(r)), NormIdx(b, N(r)))
+\* Python extended slices w[a:b:st]: a bound is [none |-> BOOLEAN, v |-> Int], st # 0
+ClampIdx(i, n, st) == IF i < 0 THEN (IF i + n < 0 THEN (IF st < 0 THEN -1 ELSE 0) ELSE i + n)
+                      ELSE (IF i >= n THEN (IF st < 0 THEN n - 1 ELSE n) ELSE i)
+StepSliceSeq(r, a, b, st) ==
+  LET n     == N(r)
+      start == IF a.none THEN (IF st < 0 THEN n - 1 ELSE 0) ELSE ClampIdx(a.v, n, st)
+      stop  == IF b.none THEN (IF st < 0 THEN -1 ELSE n) ELSE ClampIdx(b.v, n, st)
+      cnt   == IF st > 0 THEN (IF stop > start THEN (stop - start + st - 1) \div st ELSE 0)
+               ELSE (IF start > stop THEN (start - stop - st - 1) \div (-st) ELSE 0)
+  IN [i \in 1..cnt |-> r.seq[start + (i - 1) * st + 1]]
 =============================================================================
